@@ -33,8 +33,9 @@ func (vc *VC) execCall(fx *FuncCtx, fr *Frame, st *State, c *ssa.CallCommon, ins
 		return vc.callInvoke(fx, st, c, recv, args, rt, instr)
 	}
 	fv := vc.val(fx, fr, c.Value)
-	// ghost: number of direct calls of each named function made by the function under verification (callees'
-	// own calls are not counted: the counter is in nobody's frame)
+	// ghost: number of direct calls of each named function made in the body of the function under verification
+	// (calls made by callees - contracted or inlined - and by closures are not counted: the counter is in nobody's
+	// frame; clauses that say "exactly once" therefore speak about the body's own call sites)
 	if sf, ok := c.Value.(*ssa.Function); ok && fx != nil && fx.top {
 		kf := vc.reg.get("ghost:called:"+sf.Name(), 0, IntSort, nil)
 		st.heap[kf.Name] = Add(st.heapVar(kf), IntC(1))
